@@ -2,9 +2,16 @@
 qubits x branch-dependent liveness.  Programs the checker rejects are simply skipped by the
 check (and counted).  All randomness comes from the `random.Random` passed in."""
 
-PRELUDE = '''from guppylang import guppy
-from guppylang.std.builtins import owned, array
+PRELUDE = '''import guppylang
+guppylang.enable_experimental_features()
+from collections.abc import Callable
+from guppylang import guppy
+from guppylang.std.builtins import owned, array, comptime, nat
 from guppylang.std.quantum import qubit, discard, h, x, cx, project_z, reset
+
+T = guppy.type_var("T")
+L = guppy.type_var("L", copyable=False, droppable=False)
+n = guppy.nat_var("n")
 
 
 @guppy.struct
@@ -64,6 +71,63 @@ def bor_n(n: N) -> int:
 def swap(t: tuple[int, bool]) -> tuple[bool, int]:
     return t[1], t[0]
 
+
+@guppy
+def ident(v: T) -> T:
+    return v
+
+
+@guppy
+def pick(c: bool, a: T, b: T) -> T:
+    if c:
+        return a
+    return b
+
+
+@guppy
+def ident_l(v: L @owned) -> L:
+    return v
+
+
+@guppy
+def arr_at(a: array[T, n], i: int) -> T:
+    return a[i]
+
+
+@guppy
+def arr_len(a: array[T, n]) -> int:
+    return n
+
+
+@guppy
+def scale(k: int @comptime, v: int) -> int:
+    if k > 2:
+        return v * k
+    return v + k
+
+
+@guppy
+def rep(k: nat @comptime, v: int) -> int:
+    acc = 0
+    for _ in range(k):
+        acc += v
+    return acc
+
+
+@guppy
+def flag(f: bool @comptime, v: int) -> int:
+    return v + 1 if f else v
+
+
+@guppy
+def apply(f: Callable[[int], int], v: int) -> int:
+    return f(v)
+
+
+@guppy
+def twice(f: Callable[[T], T], v: T) -> T:
+    return f(f(v))
+
 '''
 
 TYPES = {"i": "int", "b": "bool", "p": "P", "t": "tuple[int, bool]", "q": "qubit", "s": "S", "n": "N",
@@ -82,6 +146,7 @@ class Gen:
         self.borrowed = set()
         self.ret_kind = None
         self.features = set()
+        self.nest = 0
 
     # ---- names -------------------------------------------------------------------------
     def fresh(self, kind):
@@ -125,10 +190,40 @@ class Gen:
         if self.lin_of("tq"):
             opts += ["tq"]
         if d < 2:
-            opts += ["bin"] * 3 + ["ifexp"]
+            opts += ["bin"] * 3 + ["ifexp", "generic", "comptime"]
+            if self.of("f"):
+                opts += ["callf"] * 3
+            if self.of("a"):
+                opts += ["arrgen"]
         o = r.choice(opts)
         if o == "lit":
             return str(r.randint(0, 9))
+        if o == "generic":
+            self.features.add("generic_hugr")
+            if r.random() < 0.5:
+                return f"ident({self.int_expr(d + 1)})"
+            return f"pick({self.bool_expr(d + 1)}, {self.int_expr(d + 1)}, {self.int_expr(d + 1)})"
+        if o == "comptime":
+            k = r.choice(["int", "nat", "bool"])
+            self.features.add("comptime_" + k)
+            if k == "int":
+                return f"scale(comptime({r.randint(0, 5)}), {self.int_expr(d + 1)})"
+            if k == "nat":
+                return f"rep(comptime({r.randint(0, 3)}), {self.int_expr(d + 1)})"
+            return f"flag(comptime({r.choice(['True', 'False'])}), {self.int_expr(d + 1)})"
+        if o == "callf":
+            f = r.choice(self.of("f"))
+            c = r.random()
+            if c < 0.6:
+                return f"{f}({self.int_expr(d + 1)})"
+            self.features.add("higher_order")
+            if c < 0.8:
+                return f"apply({f}, {self.int_expr(d + 1)})"
+            return f"twice({f}, {self.int_expr(d + 1)})"
+        if o == "arrgen":
+            self.features.add("generic_array")
+            a = r.choice(self.of("a"))
+            return f"arr_at({a}, {r.randint(0, 2)})" if r.random() < 0.6 else f"arr_len({a})" 
         if o == "var":
             return r.choice(self.of("i"))
         if o == "p":
@@ -174,7 +269,7 @@ class Gen:
 
     def s_expr(self):
         own = [q for q in self.lin_of("q") if q not in self.borrowed]
-        if own and self.r.random() < 0.4:
+        if own and self.nest == 0 and self.r.random() < 0.4:
             q = self.r.choice(own)
             del self.lin[q]
             return f"S({q}, {self.int_expr(1)})"
@@ -275,7 +370,28 @@ class Gen:
             opts += ["arr"] * 5
         if self.of("a"):
             opts += ["arr_set"] * 2
+        opts += ["nested_fn"] * 2 + ["gen_val"]
+        if [n for n in self.lin if n not in self.borrowed]:
+            opts += ["gen_lin"] * 2
         o = r.choice(opts)
+        if o == "nested_fn":
+            self.nested_fn(out)
+            return
+        if o == "gen_val":
+            self.features.add("generic_hugr")
+            kind = r.choice([k for k in ("i", "b", "p", "t") if self.of(k)] or ["i"])
+            if not self.of(kind):
+                return
+            src = r.choice(self.of(kind))
+            n = self.pick_name(kind)
+            out.add(f"{n} = ident({src})")
+            self.defs[n] = kind
+            return
+        if o == "gen_lin":
+            self.features.add("generic_linear")
+            v = r.choice([n for n in self.lin if n not in self.borrowed])
+            out.add(f"{v} = ident_l({v})")
+            return
         if o == "int":
             e = self.int_expr()
             n = self.pick_name("i")
@@ -384,7 +500,7 @@ class Gen:
             self.features.add("lintuple")
         elif o == "tq_unpack":
             src = r.choice(self.lin_of("tq"))
-            if src in self.borrowed:
+            if src in self.borrowed or self.nest > 0:
                 return
             q, i = self.fresh("q"), self.pick_name("i")
             out.add(f"{q}, {i} = {src}")
@@ -419,6 +535,35 @@ class Gen:
             self.features.add("array")
         elif o == "arr_set":
             out.add(f"{r.choice(self.of('a'))}[{r.randint(0, 2)}] = {self.int_expr(1)}")
+
+    def nested_fn(self, out):
+        """A nested function definition; captures copyable variables that are defined here."""
+        r = self.r
+        f = self.fresh("f")
+        y = self.fresh("y")
+        caps = self.of("i") + [None] * 2
+        cap = [c for c in {r.choice(caps) for _ in range(r.randint(0, 2))} if c]
+        bcap = r.choice(self.of("b")) if self.of("b") and r.random() < 0.3 else None
+        rec = r.random() < 0.2
+        atoms = [y, str(r.randint(0, 9))] + cap
+
+        def e():
+            return f"({r.choice(atoms)} {r.choice('+-*')} {r.choice(atoms)})"
+        self.features.add("nested_capture" if cap or bcap else "nested_plain")
+        out.add(f"def {f}({y}: int) -> int:")
+        out.ind += 1
+        if rec:
+            self.features.add("nested_recursive")
+            out.add(f"if {y} < 1:")
+            out.add(f"    return {e()}")
+            out.add(f"return {f}({y} - 1) + {r.choice(atoms)}")
+        else:
+            if bcap or r.random() < 0.5:
+                out.add(f"if {bcap or f'({y} < {r.choice(atoms)})'}:")
+                out.add(f"    return {e()}")
+            out.add(f"return {e()}")
+        out.ind -= 1
+        self.defs[f] = "f"
 
     def block(self, out, n, depth, loop_lin=None, top=False):
         """Emit about n statements; returns True if the block ended with return/break/continue."""
@@ -464,6 +609,16 @@ class Gen:
                 self.defs[k] = "i"
                 self.sub(out, depth, set(self.lin))
                 self.defs, self.lin = d0, l0
+            elif depth < self.max_depth and loop_lin is None and self.of("a") and c < 0.295:
+                self.features.add("array_iter")
+                a = r.choice(self.of("a"))
+                v = self.fresh("v")
+                out.add(f"for {v} in {a}:")
+                del self.defs[a]
+                d0, l0 = dict(self.defs), dict(self.lin)
+                self.defs[v] = "i"
+                self.sub(out, depth, set(self.lin))
+                self.defs, self.lin = d0, l0
             elif depth > 0 and c < 0.31:
                 self.features.add("early_return")
                 self.ret_stmt(out)
@@ -482,11 +637,13 @@ class Gen:
 
     def sub(self, out, depth, loop_lin):
         out.ind += 1
+        self.nest += 1
         mark = len(out.lines)
         t = self.block(out, self.r.randint(1, max(1, self.size // 3)), depth + 1, loop_lin)
         if len(out.lines) == mark:
             out.add("pass")
         out.ind -= 1
+        self.nest -= 1
         return t
 
     def function(self):
